@@ -71,7 +71,7 @@ CmacDbl(b) == LET s == ShiftL1(b) IN IF b[1] >= 128 THEN [s EXCEPT ![16] = @ ^^ 
 \* process nb full blocks of m, starting with block i (0-based), from chaining value x; in runs of 32 blocks, which keeps the
 \* evaluator's recursion shallow for messages of several KiB
 RECURSIVE CmacRun(_, _, _, _, _)
-CmacRun(ks, x, m, i, nb) == IF nb = 0 THEN x
+CmacRun(ks, x, m, i, nb) == IF nb = 0 \/ Len(x) # 16 THEN x       \* (Len(x): the chaining value is computed block by block, see Snow3g!EiaRun)
                             ELSE CmacRun(ks, AesEncKS(ks, XorBytes(x, SubSeq(m, 16 * i + 1, 16 * i + 16))), m, i + 1, nb - 1)
 RECURSIVE CmacChainAt(_, _, _, _, _)
 CmacChainAt(ks, x, m, i, nb) == IF nb <= 32 THEN CmacRun(ks, x, m, i, nb) ELSE CmacChainAt(ks, CmacRun(ks, x, m, i, 32), m, i + 32, nb - 32)
